@@ -46,7 +46,8 @@ def main():
         print(__doc__)
         return 2
     if sys.argv[1] == "stored":
-        items = [(d.name, d) for d in sorted((VERIF / "refactors").iterdir()) if (d / "patch.diff").exists()]
+        only = sys.argv[2] if len(sys.argv) > 2 else ""
+        items = [(d.name, d) for d in sorted((VERIF / "refactors").iterdir()) if (d / "patch.diff").exists() and only in d.name]
     else:
         src, tag = Path(sys.argv[1]), sys.argv[2]
         items = [(f"{tag}-{d.name[1:]}", d) for d in sorted(src.glob("r*")) if (d / "patch.diff").exists()]
